@@ -2969,7 +2969,7 @@ static void handle_define (char *yyt) {
               lexerror ("Macro text too long");
               return;
             }
-          if (!*p && p[-2] == '\\')
+          if (!*p && p >= yytext + 2 && p[-2] == '\\') /* a refilled line may hold less than two characters */
             {
               q -= 2;
               refill ();
@@ -2991,7 +2991,7 @@ static void handle_define (char *yyt) {
               lexerror ("Macro text too long");
               return;
             }
-          if (!*p && p[-2] == '\\')
+          if (!*p && p >= yytext + 2 && p[-2] == '\\') /* a refilled line may hold less than two characters */
             {
               q -= 2;
               refill ();
